@@ -3,35 +3,28 @@
 import json, os
 ROOT = os.path.dirname(os.path.dirname(os.path.abspath(__file__)))
 props = [json.loads(l) for l in open(os.path.join(ROOT, "properties.jsonl"))]
-GROUND_NOTE = ("Trusted: TLC; the renderer of abstract programs to .chalk text; the declarative meaning (lfp/gfp per SCC, stratified negation) written in SLGGround.tla. "
-               "Bounds: propositional programs (closed goals only produce closed subgoals) over <= 4 atoms, <= 3 clauses, bodies <= 2; the recursive solver is bound "
-               "through final answers only (no engine model of chalk-recursive yet).")
-claimed = {
- "C02": ("6/C02", "SLGGround.tla is a closed, deterministic TLA+ model of chalk-engine's root search on propositional programs that is in lock-step with the real engine (same number of engine events per public call). TLC explores every (program, closed goal) of a bounded family incl. stratified negation and coinduction and checks ResultsCorrect (answer is Unique/None exactly as the program's least/greatest fixed point dictates). Every explored behaviour is replayed on the real SLG solver (answer and step count), on the recursive solver with cache on/off and under a second limit configuration; every real SLG execution is validated as a behaviour of SLG.tla (control-level spec of logic.rs/forest.rs/aggregate.rs) with its invariants evaluated at every step."),
- "C05": ("6/C05", "Same engine model over the family with every choice of #[coinductive] traits and histories of two goals: invariant ResultsCorrect against the greatest-fixed-point meaning, DeviationShape bounding the one named deviation; replay on SLG and recursive (cache on/off); the members expressible as one auto trait over recursive structs with negative impls are rendered that way and replayed too. The check re-derives a genuine defect (stale delayed-subgoal answers) and reports it as KNOWN-FINDING."),
- "C09": ("6/C09", "Invariant BoundedWork (each public call of the engine model ends within MaxEvents steps) over programs x {solve, solve_limited}; the real SLG engine performs exactly the number of steps the model computes, the recursive solver returns under a watchdog, nothing panics; plus the (program, goal) blocks of /repo/tests under both solvers with watchdog, SLG executions validated against SLG.tla up to OpEnd. Known non-terminating / panicking inputs (negative cycles, coinductive_wrapper) are listed findings."),
- "C10": ("6/C10", "TLC enumerates every history (order, repetition) of up to 3 goals on one forest for each program; ResultsCorrect says each answer equals the program's meaning, i.e. the fresh answer. Replay on real SLG (answer + step count per call, so cached tables are exercised exactly as modelled), recursive with cache on and off. Re-derives two genuine history-dependence defects of the SLG engine as KNOWN-FINDINGs."),
- "C11": ("6/C11", "TLC enumerates histories of solve / solve_limited with the continue-callback returning false at its k-th consultation (the Stop action of SLG.tla); invariants InterruptSafe and ResultsCorrect; replay on real SLG compares answer, step count and number of callback consultations, recursive solver compared with the meaning."),
- "C13": ("6/C13", "All permutations of a clause multiset are members of the (sequence-based) family; ResultsCorrect against the order-independent meaning for each order; replay on real SLG/recursive in the modelled order (lock-step) and with all items shuffled at the text level."),
-}
-extra = json.load(open(os.path.join(ROOT, "tools", "extra_claims.json"))) if os.path.exists(os.path.join(ROOT, "tools", "extra_claims.json")) else {}
+import sys
+sys.path.insert(0, os.path.join(ROOT, "tools"))
+from claims import CLAIMS, ENGINES, NA, NA_DEFAULT
 checks = []
-for pid, (ref, text) in claimed.items():
+for pid in sorted(CLAIMS):
+    c = CLAIMS[pid]
     checks.append({"property_id": pid, "quick_cmd": "./check %s --tier quick" % pid, "thorough_cmd": "./check %s --tier thorough" % pid,
-                   "evidence_file": "/verif/evidence/%s.json" % pid, "engine": "ground-slg",
+                   "evidence_file": "/verif/evidence/%s.json" % pid, "engine": c["engine"],
                    "replay_cmd_template": "python3 tools/replay.py {path}",
-                   "level_claimed": {"category": "model_checking", "text": text, "design_ref": "DESIGN.md section 0 and " + ref},
-                   "level_note": GROUND_NOTE, "technique": "TLA+ engine model + TLC; spec->impl replay with step-count lock-step; impl->spec trace validation"})
-na_reason = ("not claimed in this round: the specification module and conformance harness planned for it in DESIGN.md section 6 are not built yet; "
-             "no check is registered rather than registering one that is not sound")
-na = [{"property_id": p["id"], "reason": na_reason} for p in props if p["id"] not in claimed]
+                   "level_claimed": {"category": c["level"], "text": c["text"], "design_ref": c["ref"]},
+                   "level_note": c["note"], "technique": c["technique"]})
+na = [{"property_id": p["id"], "reason": NA.get(p["id"], NA_DEFAULT)} for p in props if p["id"] not in CLAIMS]
+import subprocess
+commits = subprocess.run(["git", "-C", "/repo", "log", "--format=%h %s"], stdout=subprocess.PIPE, text=True).stdout.splitlines()
+hook_commits = [l.split()[0] for l in commits if l.split(" ", 1)[1].startswith("verif hooks")][::-1]
 m = {"version": 1, "setup_cmd": "./setup.sh",
      "hooks": {"guard": "chalk_verif",
                "enable": "rustflags --cfg chalk_verif in /verif/harness/.cargo/config.toml (the harness crate has path dependencies on /repo's crates)",
                "baseline_off_cmd": "cd /repo && cargo test --workspace --no-fail-fast --offline",
-               "source_commits": ["2eaca45"], "add_only": True},
-     "engines": [{"name": "ground-slg", "path": "/verif/spec/SLG.tla, SLGGround.tla, SLGGroundMC.tla, SLGTrace.tla; /verif/lib/groundcheck.py; /verif/harness",
-                  "serves_properties": sorted(claimed), "kind_free_text": "TLA+ model of chalk-engine (control level + closed propositional level), TLC model checking, replay into real solvers, trace validation of real executions"}],
+               "source_commits": hook_commits, "add_only": True},
+     "engines": [{"name": n, "path": p, "serves_properties": sorted(k for k in CLAIMS if CLAIMS[k]["engine"] == n), "kind_free_text": t}
+                 for n, (p, t) in ENGINES.items()],
      "checks": checks,
      "notes": "See DESIGN.md section 0 for what is built. known-findings.json lists genuine defects re-derived on every run.",
      "not_applicable": na}
